@@ -50,8 +50,8 @@ def raise_with_traceback(
     exc: BaseException,
     tb: TracebackType | None
 ) -> NoReturn:
-    exc.__traceback__ = tb
-    raise exc
+    # (not an assignment: the class may refuse them)
+    raise BaseException.with_traceback(exc, tb)
 
 
 def encode_string(s: str) -> bytes:
@@ -289,7 +289,8 @@ def create_formatted_exception(
                 inst = cls.__new__(new, *exc.args)
 
         BaseException.__init__(inst, *exc.args)
-        inst.__dict__ = exc.__dict__  # type: ignore[assignment]
+        # (the class may not allow its instances to be assigned to)
+        object.__setattr__(inst, '__dict__', exc.__dict__)
 
         # State kept outside ``args`` and ``__dict__``: the fields of
         # built-in exceptions (``errno``, ``filename``, ``lineno``,
@@ -300,7 +301,7 @@ def create_formatted_exception(
                    isinstance(attr, (MemberDescriptorType,
                                      GetSetDescriptorType)):
                     try:
-                        setattr(inst, name, getattr(exc, name))
+                        object.__setattr__(inst, name, getattr(exc, name))
                     except (AttributeError, TypeError, ValueError):
                         pass
 
